@@ -136,6 +136,38 @@ func init() {
 	intrinsics["(*sync.RWMutex).Unlock"] = lockOp(true, false)
 	intrinsics["(*sync.RWMutex).RLock"] = lockOp(false, true)
 	intrinsics["(*sync.RWMutex).RUnlock"] = lockOp(false, false)
+	// sync.Pool: Put keeps the object; Get hands back a kept object or a new one (both are legal
+	// behaviours of the real pool: a fork), calling New when it has to make one.
+	intrinsics["(*sync.Pool).Put"] = func(in *Interp, fn *ssa.Function, a []Value) Value {
+		k := lockKey(a[0].(Ptr))
+		if in.pools == nil {
+			in.pools = map[string][]Value{}
+		}
+		in.pools[k] = append(in.pools[k], a[1])
+		return nil
+	}
+	intrinsics["(*sync.Pool).Get"] = func(in *Interp, fn *ssa.Function, a []Value) Value {
+		p := a[0].(Ptr)
+		k := lockKey(p)
+		if items := in.pools[k]; len(items) > 0 && in.choose(2) == 0 {
+			v := items[len(items)-1]
+			in.pools[k] = items[:len(items)-1]
+			return v
+		}
+		st, ok := in.load(p).(Struct)
+		if !ok {
+			in.unsupported("sync.Pool value")
+		}
+		pt := fn.Signature.Recv().Type().(*types.Pointer).Elem().Underlying().(*types.Struct)
+		for i := 0; i < pt.NumFields(); i++ {
+			if pt.Field(i).Name() == "New" {
+				if f, ok := st.F[i].(Func); ok && (f.Fn != nil || f.B != nil) {
+					return in.invoke(f, nil, nil, nil)
+				}
+			}
+		}
+		return Iface{}
+	}
 	intrinsics["(*sync.Once).Do"] = func(in *Interp, fn *ssa.Function, a []Value) Value {
 		p := a[0].(Ptr)
 		key := "once|" + in.identKey(p)
